@@ -165,7 +165,10 @@ def twin_of(m, mapping, rmapping, perm_seed, flip):
     t["process_noise"] = {mapping[k]: v for k, v in reversed(list(m["process_noise"].items()))}
     t["sensors"] = {key: {rmapping[key][r]: rename_tree(tr, mapping) for r, tr in reversed(list(rs.items()))}
                     for key, rs in reversed(list(m["sensors"].items()))}
-    t["sensor_noises"] = {key: {rmapping[key][r]: v for r, v in rs.items()} for key, rs in m["sensor_noises"].items()}
+    # noise entries: declared in another order than the readings they belong to (outer and inner maps reversed, then
+    # rotated by the permutation seed, so that the order is neither the readings' nor its mirror image)
+    t["sensor_noises"] = {key: dict(permute([(rmapping[key][r], v) for r, v in reversed(list(rs.items()))], perm_seed))
+                          for key, rs in reversed(list(m["sensor_noises"].items()))}
     if flip:
         t["containers"] = {k: ("list" if v == "set" else "set") for k, v in m["containers"].items()}
     t["string_form"] = []
